@@ -333,8 +333,11 @@ func (cs *Contracts) loadContractText(path, pkg, text string) error {
 		case "noreturn":
 			cur.NoReturn = true
 		case "nopanic":
+			// nopanic          run-time panics are obligations of every property of the function (the default)
+			// nopanic [Cxx]    ... of the listed properties only
+			// nopanic none     ... of no property (panics are legitimate or unclaimed here)
 			cur.NoPanicProps = props
-			if props == nil {
+			if strings.TrimSpace(rest) == "none" {
 				cur.NoPanicProps = []string{}
 			}
 		case "bounded":
